@@ -736,6 +736,57 @@ func genC12(c *Ctx) {
 		b.cert(id2, nil, selfSigOpts(primary, 10, 1500000300, 1, nil), true)
 		pgpInspect(c, "C12", "third-party-certifications", false, b.stream, b.ref(1), plain)
 	}
+	// key IDs and fingerprints that begin with zero octets (found by varying the creation time)
+	for _, want := range []struct {
+		tag string
+		at  int
+	}{{"keyid-leading-zero", 12}, {"fingerprint-leading-zero", 0}} {
+		r := NewRng(c.R.U64())
+		primary := newEdDSAKey(0, r)
+		for t := uint32(1600000000); ; t++ {
+			primary.created = t
+			if primary.fpr()[want.at] == 0 {
+				break
+			}
+		}
+		keyhash(want.tag, primary.body(), true)
+		b := newEnt(primary, false, r, func() int { return 0 })
+		id := b.uid("zero <zero@example.org>")
+		b.cert(id, nil, selfSigOpts(primary, 8, primary.created, 3, nil), true)
+		pgpInspect(c, "C12", want.tag, false, b.stream, b.ref(1), plain)
+	}
+	// several self-signatures on one identity (RFC 4880 5.2.3.3 recommends the most recent one; the
+	// code keeps the last in the stream), the same user ID twice, a direct-key signature
+	{
+		r := NewRng(c.R.U64())
+		primary := newEdDSAKey(1500000000, r)
+		b := newEnt(primary, false, r, func() int { return 3 })
+		id := b.uid("two self-signatures, oldest first")
+		b.cert(id, nil, selfSigOpts(primary, 8, 1500000000, 0x03, u32p(86400)), true)
+		b.cert(id, nil, selfSigOpts(primary, 8, 1600000000, 0x23, u32p(86400*3650)), true)
+		pgpInspect(c, "C12", "two-self-signatures", false, b.stream, b.ref(1), plain)
+		b = newEnt(primary, false, r, func() int { return 3 })
+		id = b.uid("two self-signatures, newest first")
+		o1, o2 := selfSigOpts(primary, 8, 1600000000, 0x23, u32p(86400*3650)), selfSigOpts(primary, 8, 1500000000, 0x03, u32p(86400))
+		b.cert(id, nil, o1, true)
+		b.cert(id, nil, o2, true)
+		b.ids[id].alts = []pgpAlt{altOf(o1), altOf(o2)} // either is acceptable
+		pgpInspect(c, "C12", "two-self-signatures-reversed", false, b.stream, b.ref(1), plain)
+		b = newEnt(primary, false, r, func() int { return 3 })
+		id = b.uid("same user ID")
+		b.cert(id, nil, o2, true)
+		id2 := b.uid("same user ID")
+		b.cert(id2, nil, o1, true)
+		b.ids[id].alts = []pgpAlt{altOf(o1), altOf(o2)}
+		b.ids = b.ids[:1]
+		pgpInspect(c, "C12", "same-user-id-twice", false, b.stream, b.ref(1), plain)
+		b = newEnt(primary, false, r, func() int { return 3 })
+		body, _ := makeSig(primary, primary.hashInput(), sigOpts{sigType: 0x1f, hid: 8, created: 1500000000, issuer: u64p(primary.keyID()), flags: []byte{0x2f}, keyLife: u32p(5)}, r)
+		b.packet(2, body)
+		id = b.uid("after a direct-key signature")
+		b.cert(id, nil, o1, true)
+		pgpInspect(c, "C12", "direct-key-signature", false, b.stream, b.ref(1), plain)
+	}
 	// ---- malformed stream derived from valid keys (no reference: the model must agree, nothing may panic) ----
 	pgpMalformed(c)
 	// ---- keys produced by GnuPG, GnuPG's own listing as the reference ----
@@ -931,6 +982,12 @@ func genGPG(c *Ctx) {
 		}
 		if s.tag == "rsa2048+rsa2048" {
 			run(append(fake, "--quick-add-uid", fpr, "Second Identity <second@example.org>")...)
+		}
+		if s.tag == "nistp256" {
+			// the expiry of key and subkey is changed half a year later: new self- and binding signatures
+			fake = []string{"--faked-system-time", "20100701T000000!"}
+			run(append(fake, "--quick-set-expire", fpr, "3y", "*")...)
+			run(append(fake, "--quick-set-expire", fpr, "5y")...)
 		}
 		list, err = run(append(fake, "--with-colons", "--fixed-list-mode", "--list-keys", fpr)...)
 		if err != nil {
